@@ -112,7 +112,8 @@ func run(repo string) (string, error) {
 	walk(disp, func(n ast.Node, st []ast.Node) {
 		if a, ok := n.(*ast.AssignStmt); ok {
 			for _, l := range a.Lhs {
-				if txt(l) == "nonce" {
+				// the declaration `nonce := c.nonceBase` (the connection's starting value) is not a write to the running counter
+				if txt(l) == "nonce" && !(a.Tok == token.DEFINE && txt(a) == "nonce := c.nonceBase") {
 					otherNonceWrites++
 				}
 			}
@@ -351,6 +352,11 @@ func run(repo string) (string, error) {
 	s += fmt.Sprintf("def runKeepsDrainingErrors : Bool := %s\n", lb(runDrains))
 	s += "/-- newClient draws a fresh signing key pair per connection; signFn signs with it, sendID presents its public half -/\n"
 	s += fmt.Sprintf("def signingKeyPerConnection : Bool := %s\n", lb(perConnKey))
+	ct, err := connTableFacts(cf, sf)
+	if err != nil {
+		return "", err
+	}
+	s += ct
 	s += "end Dos.Gen\n"
 	return s, nil
 }
